@@ -104,7 +104,7 @@ impl Subject for SVClock {
         Some(o)
     }
     fn validate_op(s: &Self::St, op: &Self::Op) -> Result<(), String> {
-        s.validate_op(op).map_err(|e| format!("{e:?}"))
+        s.validate_op(op).map_err(|e| render_dot_range(&e))
     }
     const RESET: bool = true;
     fn reset_remove(s: &mut Self::St, c: &Clock) {
@@ -302,10 +302,14 @@ impl Subject for SLww {
         Some(o)
     }
     fn validate_op(s: &Self::St, op: &Self::Op) -> Result<(), String> {
-        s.validate_op(op).map_err(|e| format!("{e:?}"))
+        s.validate_op(op).map_err(|e| match e {
+            crdts::lwwreg::Validation::ConflictingMarker => "ConflictingMarker".to_string(),
+        })
     }
     fn validate_merge(a: &Self::St, b: &Self::St) -> Result<(), String> {
-        a.validate_merge(b).map_err(|e| format!("{e:?}"))
+        a.validate_merge(b).map_err(|e| match e {
+            crdts::lwwreg::Validation::ConflictingMarker => "ConflictingMarker".to_string(),
+        })
     }
 }
 
